@@ -31,7 +31,13 @@ def main():
             'engine': 'vp',
             'level_claimed': {
                 'category': 'exploration',
-                'text': getattr(mon, 'LEVEL_TEXT', (mon.__doc__ or '').strip().split('\n\n')[0]),
+                'text': getattr(mon, 'LEVEL_TEXT', ' '.join((mon.__doc__ or '').split()) + ' — Assurance: the property held on every '
+                                'execution the monitors observed (numbers of cases, oracle evaluations, coverage classes, probe/anchor '
+                                'call counts and worst residual-to-tolerance ratios are in the evidence file); a run that misses a '
+                                'required coverage class, probe or oracle is reported inconclusive. Exploration is the right level: '
+                                'the property quantifies over unbounded spaces of inputs, configurations and call histories of '
+                                'floating-point code, which execution monitoring can sample (and, for the finite sub-spaces named in '
+                                'the rule, enumerate) but not exhaust.'),
                 'design_ref': f'DESIGN.md §3 {pid}',
             },
             'level_note': getattr(mon, 'LEVEL_NOTE',
